@@ -182,6 +182,13 @@ pub fn value_alphabet() -> Vec<(&'static str, Value)> {
     "[{a: 1}, {a: 2, b: 3}]",
     "[[1]]",
     "[[1], [2]]",
+    // neighbouring items that report one and the same type (a list with a null item is a list of anything) and differ
+    "[[1, null], [\"a\", null]]",
+    "[[\"a\", null], [1, null]]",
+    "[[1, null], [1, null], [\"a\", null]]",
+    "[{a: [1, null]}, {a: [\"a\", null]}]",
+    "[[1, \"a\"], [1, null]]",
+    "[1, 1, \"a\", \"a\"]",
     "[true]",
     "[{a: 1}]",
     "{}",
